@@ -230,8 +230,8 @@ def replay_adaptive(ctx, beh, via_public=None):
         if e['k'] == 'fail':
             raise solvers.NoConvergenceError('newton', 1, x)
         r = 0.0 if e['k'] == 'zero' else float(frac(e['s']) ** q)
-        if C is not None and not rel_close(float(C) * tau * tau, r, 1e-11):
-            raise MachineryError('error model out of sync: C tau^2 = %r, scripted %r' % (float(C) * tau * tau, r))
+        # (model mode: r = C tau^2 holds for the spec's tau; a deviation of the real tau shows up in the comparison
+        # of the tau sequences below)
         xnew = x.copy()
         return xnew, xnew + r * tol, k + 1
 
